@@ -15,6 +15,13 @@ CHECKS = {
                      "emit_cmd_stream_header are translated from /repo on every run and proved equal to the model; "
                      "create_driver_payload/build_config_word are tied by a byte-for-byte correspondence run.",
                 note=TB + "; struct.pack/ctypes modelled; accelerator facts in Driver.spec_table"),
+    "C13": dict(cat="other", ref="7/C13", technique="Coq proofs of exception-freedom for modelled arithmetic cores + crash sweep of generated models (exploration)",
+                text="Partial. Whole-compiler totality over all models is not a theorem. Proved in Coq: the arithmetic sites that "
+                     "are modelled cannot raise (e.g. the scheduler's slack computation with the array dtype introspected from the "
+                     "source each run: provable for int64, refuted for int32). Explored, not proved: generated valid models "
+                     "(7 families incl. unsupported operators, odd ranks/dtypes, CPU/NPU mixes) x CLI option points are compiled "
+                     "in fresh processes; a traceback, timeout, silent non-zero exit or missing output is reported with the job as replay.",
+                note=TB + "; tools/netgen.py models stand for 'structurally valid flatbuffers'; the sweep samples the model space"),
 }
 
 NOT_YET = {}
